@@ -949,6 +949,104 @@ class NinjaInstallRule(InstallRule):
         return self.compare(a, goals)
 
 
+# ---- test goals ---------------------------------------------------------------------------------------------------
+#
+# One description for both backends: without tests nothing is emitted; otherwise the goal `tests` (always out of date
+# under Make / phony under Ninja) depends on exactly the programs the test commands need plus the files given to
+# test_deps(), and the goal `test` depends on `tests` and runs exactly the test commands, in order.
+
+import bfg9000.builtins.tests as TS
+
+
+class TestRule(StepEmitter):
+    properties = ('C03', 'C06')
+
+    def cases(self):
+        return ['%s/%d' % (t, n) for t in ('tests', 'no-tests') for n in (0, 1, 2)]
+
+    def params(self, cx, case):
+        t, n = case.split('/')
+        cx.ghost('has_tests', t == 'tests')
+        cx.ghost('cmds', [thing('test_cmd0'), thing('test_cmd1')])
+        cx.ghost('deps', [thing('test_prog0')])
+        extra = [thing('test_dep%d' % i) for i in range(int(n))]
+        cx.ghost('extra', list(extra))
+        tests = Obj(TS.TestInputs, {'tests': PList([thing('a_test')] if t == 'tests' else []), 'extra_deps': PList(extra)})
+        return {'build_inputs': PDict({'tests': tests}), 'buildfile': self.buildfile(),
+                'env': Obj(object, {'tool': OpaqueFn('tool', lambda I, a, k: thing('setenv_tool'))})}
+
+    def build_commands(self):
+        a = self.cur
+        return self.rec('build_commands', lambda I, x, k: (PList(list(a.cmds)), PList(list(a.deps))))
+
+    def compare(self, a, goals):
+        out = {}
+        if not a.has_tests:
+            out['nothing_without_tests'] = z3.BoolVal(not goals)
+            return out
+        want_deps = list(a.deps) + list(a.extra)
+        tg = goals.get('tests')
+        out['tests_goal_depends_on_the_programs_and_the_declared_test_deps'] = z3.BoolVal(
+            tg is not None and tg[1] is not None and len(tg[1]) == len(want_deps) and all(x is y for x, y in zip(tg[1], want_deps)))
+        tt = goals.get('test')
+        out['test_goal_depends_on_tests_and_runs_the_test_commands'] = z3.BoolVal(
+            tt is not None and tt[1] == ['tests'] and tt[0] is not None and len(tt[0]) == len(a.cmds) and
+            all(x is y for x, y in zip(tt[0], a.cmds)))
+        out['only_the_two_goals'] = z3.BoolVal(sorted(goals) == ['test', 'tests'])
+        return out
+
+
+class MakeTestRule(TestRule):
+    target = 'bfg9000/builtins/tests.py::make_test_rule'
+
+    def buildfile(self):
+        return Obj(msyn.Makefile, {'writer': thing('make_writer')})
+
+    def opaque_calls(self):
+        return {TS._build_commands: self.build_commands(), msyn.Makefile.__dict__['rule']: self.rec('rule')}
+
+    def ensures(self, a, r):
+        goals = {}
+        for e in a.events:
+            if e[0] != 'rule':
+                continue
+            kw = e[2]
+            rec_ = kw.get('recipe')
+            cmds = list(rec_.items) if isinstance(rec_, PList) and rec_.concrete else None
+            deps = kw.get('deps')
+            deps = [deps] if isinstance(deps, str) else (list(deps.items) if isinstance(deps, PList) and deps.concrete else None)
+            goals[kw.get('target')] = (cmds, deps, kw.get('phony'))
+        return self.compare(a, goals)
+
+
+class NinjaTestRule(TestRule):
+    target = 'bfg9000/builtins/tests.py::ninja_test_rule'
+
+    def buildfile(self):
+        return Obj(nsyn.NinjaFile, {'writer': thing('ninja_writer')})
+
+    def opaque_calls(self):
+        import bfg9000.shell as shell
+        return {TS._build_commands: self.build_commands(), nsyn.NinjaFile.__dict__['build']: self.rec('phony_build'),
+                njw.command_build: self.rec('build'),
+                shell.join_lines: self.rec('join_lines', lambda I, x, k: Obj(object, {'lines_of': x[0]}))}
+
+    def ensures(self, a, r):
+        goals = {}
+        for e in a.events:
+            kw = e[2]
+            if e[0] == 'phony_build':
+                inp = kw.get('inputs')
+                goals[kw.get('output')] = (None, list(inp.items) if isinstance(inp, PList) and inp.concrete else None, True)
+            elif e[0] == 'build':
+                c = kw.get('command')
+                lines = c.attrs.get('lines_of') if isinstance(c, Obj) else None
+                cmds = list(lines.items) if isinstance(lines, PList) and lines.concrete else None
+                inp = kw.get('inputs')
+                goals[kw.get('output')] = (cmds, [inp] if isinstance(inp, str) else inp, kw.get('phony'))
+        return self.compare(a, goals)
+
+
 def registry():
     return [MakeCommand(), NinjaCommand(), MakeCopyFile(), NinjaCopyFile(), CompdbCopyFile(), MakeCompile(), NinjaCompile(),
-            MakeLink(), NinjaLink(), CompileGetFlags(), LinkGetFlags(), MakeInstallRule(), NinjaInstallRule()]
+            MakeLink(), NinjaLink(), CompileGetFlags(), LinkGetFlags(), MakeInstallRule(), NinjaInstallRule(), MakeTestRule(), NinjaTestRule()]
